@@ -7,6 +7,9 @@ Driver component `cand` (C16): candidate text form, constructors, Equal / DeepEq
 
 Operations (all byte strings are `h<hex>`, so they may hold any byte and never a space):
   cls h<addr>                         -> 0|4|6        (samples the `netip.ParseAddr` mirror)
+  canon h<addr>                       -> `<0|4|6> <key> <key> <key>`  key = `-` | `k`+hex of the canonical-address key
+        (samples the `canonicalAddr(netip.ParseAddr(s))` mirror; 2nd/3rd key = the IP `addrEqual` sees for a
+         resolved UDP / TCP address built from this string; the monitor checks `EnvLaw` on the implementation's values)
   crc h<bytes>                        -> decimal      (samples the CRC-32 mirror)
   rt <type> h<network> h<addr> <port> <component> <prio> h<foundation> <tcptype 0..3> h<raddr> <rport> h<relayproto> <exts>
         exts = `-` or `<hexkey>:<hexval>,…` applied with AddExtension in order
@@ -15,12 +18,13 @@ Operations (all byte strings are `h<hex>`, so they may hold any byte and never a
   parse h<text>                       -> `err:<kind>` | `ok <getters of c> | T=<hex of c.Marshal()> | <getters of c2>|err:<kind> | e=.. er=.. d=.. dr=..`
   eq <side> <side>                    -> eight bits aEa aDa bEb bDb aEb bEa aDb bDa | `side-err`
         side = `P;h<text>` (parsed) or `B;<the 12 rt arguments separated by ;>` (built)
+  eq3 <side> <side> <side>            -> twelve bits aEb bEc aEc bEa cEb cEa aDb bDc aDc bDa cDb cDa | `side-err`
 getters: `f=<hex> c=<n> n=<1..4> p=<n> a=<hex> o=<n> t=<1..4> r=-|<hex>:<n> tt=<0..3> x=-|<hex>:<hex>,…`
 -/
 namespace Driver.CandText
 open IceModel.CandText Driver
 open IceModel.Prio (TcpType)
-open IceSpec.C16 (CandObs RtObs ReparseObs EqObs)
+open IceSpec.C16 (CandObs RtObs ReparseObs EqObs Eq3Obs AddrObs)
 
 /-! ### text helpers (on `List Char`) -/
 
@@ -61,6 +65,7 @@ def splitChars (sep : Char) (l : List Char) : List (List Char) :=
 
 def env0 : Env where
   cls := fun s => match NetMirror.classify s with | 4 => .v4 | 6 => .v6 | _ => .invalid
+  canon := NetMirror.canon
   crc := NetMirror.crc32
 
 /-! ### observations -/
@@ -195,7 +200,7 @@ def rtLine (args : List String) (impl : String) : Res :=
     let (ps, e, d, er, dr) :=
       match parse env0 text with
       | .error k => ("err:" ++ errName k, false, false, false, false)
-      | .ok c' => (fmtObs (obsOf c'), equal c' c, deepEqual c' c, equal c c', deepEqual c c')
+      | .ok c' => (fmtObs (obsOf c'), equal env0 c' c, deepEqual env0 c' c, equal env0 c c', deepEqual env0 c c')
     { model := s!"ok xe={ne} T={hexOf text} | {fmtObs (obsOf c)} | {ps} | e={bit e} d={bit d} er={bit er} dr={bit dr}",
       monitor := rtMonitor impl, prop := "C16" }
 
@@ -223,7 +228,7 @@ def parseLine (h : String) (impl : String) : Res :=
         let (ps, e, er, d, dr) :=
           match parse env0 t2 with
           | .error k => ("err:" ++ errName k, false, false, false, false)
-          | .ok c2 => (fmtObs (obsOf c2), equal c c2, equal c2 c, deepEqual c c2, deepEqual c2 c)
+          | .ok c2 => (fmtObs (obsOf c2), equal env0 c c2, equal env0 c2 c, deepEqual env0 c c2, deepEqual env0 c2 c)
         s!"ok {fmtObs (obsOf c)} | T={hexOf t2} | {ps} | e={bit e} er={bit er} d={bit d} dr={bit dr}"
     { model := model, monitor := parseMonitor impl, prop := "C16" }
 
@@ -252,22 +257,67 @@ def eqLine (sa sb : String) (impl : String) : Res :=
   let model :=
     match sideOf sa, sideOf sb with
     | some a, some b =>
-      String.join ([equal a a, deepEqual a a, equal b b, deepEqual b b, equal a b, equal b a,
-        deepEqual a b, deepEqual b a].map bit)
+      String.join ([equal env0 a a, deepEqual env0 a a, equal env0 b b, deepEqual env0 b b, equal env0 a b,
+        equal env0 b a, deepEqual env0 a b, deepEqual env0 b a].map bit)
     | _, _ => "side-err"
   { model := model, monitor := eqMonitor impl, prop := "C16" }
+
+def eq3Monitor (impl : String) : Option String :=
+  if implPanicked impl then some "panic" else
+  if impl = "side-err" then none else
+  match impl.toList.mapM (fun c => bitOf? [c]) with
+  | some [e1, e2, e3, e4, e5, e6, d1, d2, d3, d4, d5, d6] =>
+    IceSpec.C16.eq3Violation { eab := e1, ebc := e2, eac := e3, eba := e4, ecb := e5, eca := e6,
+                               dab := d1, dbc := d2, dac := d3, dba := d4, dcb := d5, dca := d6 }
+  | _ => some "unparsable implementation output"
+
+def eq3Line (sa sb sc : String) (impl : String) : Res :=
+  let model :=
+    match sideOf sa, sideOf sb, sideOf sc with
+    | some a, some b, some c =>
+      let ps := [(a, b), (b, c), (a, c), (b, a), (c, b), (c, a)]
+      String.join ((ps.map fun p => equal env0 p.1 p.2) ++ (ps.map fun p => deepEqual env0 p.1 p.2) |>.map bit)
+    | _, _, _ => "side-err"
+  { model := model, monitor := eq3Monitor impl, prop := "C16" }
+
+def keyStr : Option (List Nat) → String
+  | none => "-"
+  | some k => "k" ++ hexOf k
+
+def keyOf? (s : String) : Option (Option (List Nat)) :=
+  match s.toList with
+  | ['-'] => some none
+  | 'k' :: r => (unhexL r).map some
+  | _ => none
+
+/-- the assumption monitor on the values the REAL `netip` / addr.go functions returned -/
+def canonMonitor (impl : String) : Option String :=
+  if implPanicked impl then some "panic" else
+  match impl.splitOn " " with
+  | [c, k, r1, r2] =>
+    match natOfChars c.toList, keyOf? k, keyOf? r1, keyOf? r2 with
+    | some c, some k, some r1, some r2 =>
+      IceSpec.C16.envLawViolation { cls := c, canon := k, viaResolved := [r1, r2] }
+    | _, _, _, _ => some "unparsable implementation output"
+  | _ => some "unparsable implementation output"
 
 def line (toks : List String) (impl : String) : Res :=
   match toks with
   | ["cls", h] => match hfield h with
     | some s => { model := toString (NetMirror.classify s) }
     | none => bad "cand cls: args"
+  | ["canon", h] => match hfield h with
+    | some s =>
+      let k := keyStr (NetMirror.canon s)
+      { model := s!"{NetMirror.classify s} {k} {k} {k}", monitor := canonMonitor impl, prop := "C16" }
+    | none => bad "cand canon: args"
   | ["crc", h] => match hfield h with
     | some s => { model := toString (NetMirror.crc32 s) }
     | none => bad "cand crc: args"
   | "rt" :: args => rtLine args impl
   | ["parse", h] => parseLine h impl
   | ["eq", a, b] => eqLine a b impl
+  | ["eq3", a, b, c] => eq3Line a b c impl
   | _ => bad "cand: unknown op"
 
 -- @component cand
